@@ -147,6 +147,11 @@ func shippedByBundle(c Case, r string) (map[string]byte, error) {
 		for _, d := range diags {
 			msgs = append(msgs, d.Description().Summary+": "+d.Description().Detail)
 		}
+		if strings.Contains(strings.Join(msgs, " | "), "filenames with newlines are not supported") {
+			// the package checksum (dirhash) refuses such names: the build fails loudly, nothing to compare
+			ev.Label("bundle-refuses-newline-names")
+			return nil, errNotJudged
+		}
 		return nil, fmt.Errorf("bundle build failed although the package holds only regular files and directories: %s", strings.Join(msgs, " | "))
 	}
 	bundle, err := b.Close()
@@ -175,6 +180,8 @@ func shippedByBundle(c Case, r string) (map[string]byte, error) {
 	return out, nil
 }
 
+var errNotJudged = fmt.Errorf("not judged")
+
 func checkIgnore(c Case) error {
 	r, cleanup := fsx.Scratch("c03-")
 	defer cleanup()
@@ -190,6 +197,9 @@ func checkIgnore(c Case) error {
 		shipped, err = shippedByBundle(c, r)
 	} else {
 		shipped, derefDir, err = shippedByPack(c, r)
+	}
+	if err == errNotJudged {
+		return nil
 	}
 	if err != nil {
 		hasLink := false
@@ -300,7 +310,7 @@ func genCase(leg string) func(t *rapid.T) Case {
 		c.CRLF = rapid.IntRange(0, 9).Draw(t, "crlf") == 0
 		c.NoEOL = rapid.IntRange(0, 4).Draw(t, "noeol") == 0
 		c.NoFile = rapid.IntRange(0, 11).Draw(t, "nofile") == 0
-		c.Tree = tgen.Gen(t, tgen.Config{MaxNodes: 16, IgnoreNames: true, ExtraNames: rgen.Names, Links: true, LinkPct: 10, LinkIntents: []string{"file", "dotslash", "updown"}})
+		c.Tree = tgen.Gen(t, tgen.Config{MaxNodes: 16, IgnoreNames: true, ExtraNames: append(append([]string{}, rgen.Names...), "line\nbreak", "x\ny.log"), Links: true, LinkPct: 10, LinkIntents: []string{"file", "dotslash", "updown"}})
 		// always some members of the built-in classes
 		extra := fsx.Tree{
 			{Path: ".git", Kind: "dir", Mode: 0755}, {Path: ".git/config", Kind: "file", Content: "IN:gitcfg", Mode: 0644},
